@@ -274,6 +274,16 @@ func (s *Sim) parkedActions(acts []Action) []Action {
 	s.parkedBuf = s.W.Snapshot(s.parkedBuf)
 	for _, p := range s.parkedBuf {
 		if !s.sc.Gate(p) || !s.W.Enabled(p) {
+			if p.Kind == "lock" && s.W.CanPend(p) {
+				// the writer may "have called Lock" already: from then on new
+				// readers of that RWMutex queue behind it (writer preference)
+				p := p
+				acts = append(acts, Action{Class: clsRun, Key: p.Actor + " @pend:" + p.Site, Weight: 1, Do: func() {
+					s.Logf("%s is now waiting inside Lock at %s: new readers queue behind it", p.Actor, p.Site)
+					s.Fault("rwmutex-writer-pending")
+					s.W.SetPending(p)
+				}})
+			}
 			continue
 		}
 		p := p
@@ -449,10 +459,10 @@ func (s *Sim) livelock() {
 			best, n = k, v
 		}
 	}
-	if n < s.MaxSteps/4 || !strings.Contains(best, " @lock:") || !strings.HasPrefix(best, "run") {
+	if n < s.MaxSteps/4 || !strings.HasPrefix(best, "run") || !(strings.Contains(best, " @lock:") || strings.Contains(best, " @wake:")) {
 		return
 	}
-	site := best[strings.Index(best, " @lock:")+7:]
+	site := best[strings.Index(best, " @")+2:]
 	prop := s.LivelockProp
 	if prop == "" {
 		prop = "C08"
